@@ -183,14 +183,14 @@ func (r *registry) handleManifestPut(ctx context.Context, resp http.ResponseWrit
 			return ociregistry.ErrDigestInvalid
 		}
 	}
-	subjectDesc, err := subjectFromManifest(req.Header.Get("Content-Type"), data)
-	if err != nil {
-		return fmt.Errorf("invalid manifest JSON: %v", err)
-	}
 	desc, err := r.backend.PushManifest(ctx, rreq.Repo, tag, data, mediaType)
 	if err != nil {
 		return err
 	}
+	// The backend is the judge of the manifest's validity: the subject
+	// is needed here only for the OCI-Subject header of a successful push,
+	// so look for it after the backend has had its say.
+	subjectDesc, _ := subjectFromManifest(req.Header.Get("Content-Type"), data)
 	if err := r.setLocationHeader(resp, false, desc, "/v2/"+rreq.Repo+"/manifests/"+string(desc.Digest)); err != nil {
 		return err
 	}
